@@ -2,7 +2,7 @@
   C19 — Plücker lines: incidence, projection and rigid transformation are consistent.
   Theorems about the traced class methods of `Plucker` / `Plane`.  A line is the pair (v, w) stored as the
   6-vector L = (v, w) with v = w × p for every point p of the line.
-  Explored only (smv/props/c19.py): predicates with absolute tolerances (contains, ==, isparallel), distance, the normalised reciprocal product.
+  Explored only (smv/props/c19.py): predicates with absolute tolerances (contains, ==, isparallel), distance of parallel lines, the normalised reciprocal product.
 -/
 import SmVerif.Gen.Plucker
 import SmVerif.Spec.Lie
@@ -210,6 +210,37 @@ theorem commonperp_spec (hs : P.Sqrt) (L M C : Vec 6 R) (hcL : dot (mom L) (dir 
     simp only [hx1, hx2, hx3, hx6] at *
     linear_combination (M 5) * hk2 + (M 4) * hk1 + (M 3) * hk0
   · apply Vec.ext3 <;> simp [cross3, hx1, hx2, hx3]
+
+/-- the raw reciprocal product of two lines through p and q is the triple product (w₁ × w₂) · (q − p) -/
+theorem recip_eq_triple (L M : Vec 6 R) (p q : Vec 3 R) (hp : OnLine L p) (hq : OnLine M q) :
+    recip L M = dot (cross3 (dir L) (dir M)) (fun i => q i - p i) := by
+  have p0 := congrFun hp 0; have p1 := congrFun hp 1; have p2 := congrFun hp 2
+  have q0 := congrFun hq 0; have q1 := congrFun hq 1; have q2 := congrFun hq 2
+  simp only [OnLine, cross3, mom, dir, v3_0, v3_1, v3_2] at p0 p1 p2 q0 q1 q2
+  simp only [recip, dot, cross3, mom, dir, Fin.sum_univ_three, v3_0, v3_1, v3_2]
+  linear_combination (-M 3) * p0 + (-M 4) * p1 + (-M 5) * p2 + (-L 3) * q0 + (-L 4) * q1 + (-L 5) * q2
+
+/-- distance between two skew lines: |(w₁ × w₂) · (q − p)| / ‖w₁ × w₂‖ for any points p, q on them (or 0 when the code decides they meet) -/
+theorem distance_skew (L M : Vec 6 R) (p q : Vec 3 R) (hp : OnLine L p) (hq : OnLine M q) (d : R)
+    (h : Gen.Plucker_distance P L M = .ok d)
+    (hnp : ¬ P.sqrt (dot (cross3 (dir L) (dir M)) (cross3 (dir L) (dir M))) < 5 / 2251799813685248) :
+    d = 0 ∨ d * P.sqrt (dot (cross3 (dir L) (dir M)) (cross3 (dir L) (dir M))) = |dot (cross3 (dir L) (dir M)) (fun i => q i - p i)| ∨
+      P.sqrt (dot (cross3 (dir L) (dir M)) (cross3 (dir L) (dir M))) = 0 := by
+  have hr := recip_eq_triple L M p q hp hq
+  unfold Gen.Plucker_distance at h; simp only [] at h
+  have e : dot (cross3 (dir L) (dir M)) (cross3 (dir L) (dir M)) =
+      (L 4 * M 5 - L 5 * M 4) * (L 4 * M 5 - L 5 * M 4) + (L 5 * M 3 - L 3 * M 5) * (L 5 * M 3 - L 3 * M 5) + (L 3 * M 4 - L 4 * M 3) * (L 3 * M 4 - L 4 * M 3) := by
+    simp [dot, cross3, dir, Fin.sum_univ_three]
+  rw [e] at hnp ⊢
+  rw [if_neg hnp] at h
+  split_ifs at h with h1 h2 h3 <;> cases h
+  · left; rfl
+  · by_cases hz : P.sqrt ((L 4 * M 5 - L 5 * M 4) * (L 4 * M 5 - L 5 * M 4) + (L 5 * M 3 - L 3 * M 5) * (L 5 * M 3 - L 3 * M 5) + (L 3 * M 4 - L 4 * M 3) * (L 3 * M 4 - L 4 * M 3)) = 0
+    · right; right; exact hz
+    · right; left
+      rw [div_mul_cancel₀ _ hz, ← hr]
+      simp only [recip, dot, mom, dir, Fin.sum_univ_three, v3_0, v3_1, v3_2]
+      congr 1; ring
 
 /-- transforming a line by a rigid motion gives the line through the transformed points, with rotated direction -/
 theorem SE3_mul_line (M : Mat 3 3 R) (t : Vec 3 R) (hM : IsSO3 M) (L L' : Vec 6 R)
